@@ -35,12 +35,12 @@ def run(tier, rep):
     quick = tier == "quick"
     rep.assumptions += ["TLC 1.8", "damage patterns are in the classes MC_Crc shows to be always detected"]
     bundle = de.real_bundle()
-    fe.mc(rep, "items", 3 if quick else 4, maxpay=1, damage=True, optset="OptCore" if quick else "OptAll", bundle=bundle)
+    fe.mc(rep, "items", 3 if quick else 4, maxpay=1, damage=True, optset="OptCore" if quick else "OptAll", bundle=bundle, hraise=True)
     rnd = rng("c05")
     pool = stream_corpus.payload_pool(bundle, "c05", 80)
     pool += stream_corpus.syncy_payloads(rnd, 40)
     tr = fe.Traces(rep)
-    n = 36 if quick else 360
+    n = 90 if quick else 600
     for i in range(n):
         k = rnd.randint(2, 9)
         # every third stream repeats a few payloads verbatim (base stations do: 1005/1006/1033/1230)
@@ -60,8 +60,10 @@ def run(tier, rep):
         data = b"".join(sent)
         quit = i % 3
         handler = (i // 3) % 2 == 0
+        # in every fourth log-mode run the user's handler raises at some of its calls
+        hr = set(rnd.sample(range(sum(dm)), rnd.randint(1, sum(dm)))) if (quit == 1 and handler and i % 4 == 1) else None
         tr.add(data, kind=rnd.choice(["bytesio", "scripted", "buffered"]), validate=1, parsed=True, quit=quit, handler=handler,
-               rnd=rnd, want=[f for f, d in zip(sent, dm) if not d], ndam=sum(dm), nframes=k)
+               rnd=rnd, hraise=hr, want=[f for f, d in zip(sent, dm) if not d], ndam=sum(dm), nframes=k)
     verdicts = tr.judge()
     for tid, v in verdicts.items():
         m = tr.meta[tid]
@@ -70,7 +72,8 @@ def run(tier, rep):
         if v[0] != "accept":
             rep.reject(v[1], {**facts, "detail": str(v[3])[:60]}, tr.replay_of(tid, v))
             continue
-        evs = tr.traces[tid - 1]["ev"]
+        # (a raise with request size 0 is the user's handler escalating, not the reader reporting)
+        evs = [e for e in tr.traces[tid - 1]["ev"] if not (e["op"] == "read" and e["n"] == 0 and e["then"] == "raise")]
         got = [bytes(r[0]) for r in tr.results[tid]]
         nh = sum(1 for e in evs if e["then"] == "handler")
         nr = sum(1 for e in evs if e["then"] == "raise")
